@@ -677,6 +677,39 @@ func c08Special(c *Ctx, cs *Case, f, merged model.Forest, doc, fkey string) {
 			cs.Entry = ""
 		}
 	}
+	// ---------------- (e) a Verify whose directory walk FAILS half-way (an entry whose name is not
+	// valid UTF-8 cannot be listed through io/fs), then the obstacle and one required path are
+	// removed and the same target is verified again: what the failed call had seen must not count
+	if len(merged) > 0 && cs.Idx%2 == 0 {
+		for _, strict := range []bool{false, true} {
+			j, err := mon.NewJail(c.TmpDir, true)
+			if err != nil {
+				return
+			}
+			for _, e := range model.FSEntries(merged, nil) {
+				mkdirAll(j.Target + "/" + e.Path)
+			}
+			obstacle := j.Target + "/" + merged[0].Name + "/zz\xffnot-utf8"
+			mkdirAll(obstacle + "/inner")
+			first := verifyCall(verifyRoutes[0], doc, nil, fsOpts(j.Target, nil, false, false, false, strict))
+			removeAll(obstacle)
+			ps := model.Paths(model.Forest{merged[len(merged)-1]})
+			removeAll(j.Target + "/" + ps[len(ps)-1])
+			if len(ps) > 2 {
+				removeAll(j.Target + "/" + ps[len(ps)/2])
+			}
+			cs.Entry = "VerifyFromMarkdown[strict=" + strconv.FormatBool(strict) + ", after a call whose walk failed]"
+			o := verifyCall(verifyRoutes[0], doc, nil, fsOpts(j.Target, nil, false, false, false, strict))
+			c.Eval(gen.HashString(fkey+"\x00afterwalkerror"+strconv.FormatBool(strict)), true)
+			c.Count("verifies_after_a_failed_walk", 1)
+			if first.Err != nil {
+				c.Count("verifies_after_a_failed_walk.first_call_did_fail", 1)
+			}
+			c08Judge(c, cs, merged, j.Target, j.Target, strict, o, map[string]any{"forest": fkey, "doc": doc, "strict": strict, "first_call_err": errStr(first.Err)})
+			cs.Entry = ""
+			j.Remove()
+		}
+	}
 	// ---------------- (c) the root "." is the target directory itself: verifying the working directory
 	{
 		dot := &model.Node{Name: ".", Kids: merged}
